@@ -7,8 +7,8 @@
    (key, data), [pending] = (open paste: start mark ++ paste buffer) ++ prefix. *)
 From Coq Require Import ZArith List Bool.
 From PTK Require Import Lib.Sx Lib.Py Lib.C03_Regex Gen.C03_AnsiSequences Gen.C03_Regexes
-  Model.C03_Vt100Parser Model.C03_Vt100Input Model.C03_Cache Proofs.C03_Regex Proofs.C03_Cache
-  Proofs.C03_Table Proofs.C03_Process Proofs.C03_Feed Proofs.C03_Lossless Proofs.C03_Main Proofs.C03_Input Proofs.C03_Shift Proofs.C03_Decode Proofs.C03_Depth.
+  Model.C03_Vt100Parser Model.C03_Break Model.C03_Vt100Input Model.C03_Cache Model.C03_Utf8Spec Model.C03_Errors Proofs.C03_Regex Proofs.C03_Cache
+  Proofs.C03_Table Proofs.C03_Process Proofs.C03_Feed Proofs.C03_Lossless Proofs.C03_Main Proofs.C03_Input Proofs.C03_Shift Proofs.C03_Break Proofs.C03_Decode Proofs.C03_Depth Proofs.C03_Utf8 Proofs.C03_Eof Proofs.C03_Errors.
 Import ListNotations.
 Open Scope Z_scope.
 
@@ -157,16 +157,47 @@ Print Assumptions C03_pending_slices_have_no_match.
 (* ... hence in the pass that follows a new character (pending q, still able to
    grow, plus the character; no exact match) the loop as written and the loop
    with a break after the first match ([match_loop_brk]) are the same function:
-   the only slice that can match is the first character.
-   PARTIAL: the retry passes (remainders after a shift, which are suffixes and
-   not of the shape q ++ [c]) are not covered; there a second match in the same
-   pass does occur (feed "\x1b[M\x1b\t\n": the retry on "\x1b\t\n" matches
-   "\x1b\t" at i = 2 and then "\n" at i = 1 in the same pass). *)
-Theorem C03_shift_break_equiv_first_pass_partial : forall st q c,
+   the only slice that can match is the first character.  (Retry passes: a second
+   match in one pass does occur there - feed "\x1b[M\x1b\t\n": the retry on
+   "\x1b\t\n" matches "\x1b\t" at i = 2 and then "\n" at i = 1 in the same
+   pass - so the loops differ as functions; C03_shift_break_equiv below shows the
+   PARSERS do not.) *)
+Theorem C03_shift_break_equiv_first_pass : forall st q c,
   prefix st = q ++ [c] -> (q = [] \/ is_prefix_longer q = true) -> get_match (q ++ [c]) = None ->
   match_loop (length (prefix st)) st false = match_loop_brk (length (prefix st)) st.
 Proof. exact first_pass_break_equiv. Qed.
-Print Assumptions C03_shift_break_equiv_first_pass_partial.
+Print Assumptions C03_shift_break_equiv_first_pass.
+
+(* The missing "break" of the shift loop is not observable: the parser whose
+   shift loop leaves at the first match (Model/C03_Break.v: the same coroutine
+   and feed() with [match_loop_brk]) and /repo's parser reach the same state
+   (keys emitted, prefix, paste flag and buffer) after EVERY schedule of reads
+   and flushes - first passes, retry passes and flush passes.  Reason
+   (Proofs/C03_Break.v): a second key press in one pass needs a first match of
+   length >= 2 strictly inside what was pending; a string that can still grow
+   contains such a match only as ESC [ M ESC b (X10 mouse report whose first
+   payload byte is ESC), the remainder then is the new character "\n", which the
+   retry pass of the loop with a break emits identically.  Table facts
+   [table_long_esc], [table_no_inner] are recomputed whenever the table changes. *)
+Theorem C03_shift_break_equiv : forall ops, run_ops_brk ops init = run_ops ops init.
+Proof. exact shift_break_equiv. Qed.
+Print Assumptions C03_shift_break_equiv.
+
+(* ... per activation of the coroutine, in any state whose pending string is
+   empty or can still grow (every reachable state: C03_pending_can_grow) *)
+Theorem C03_shift_break_equiv_activation : forall st c,
+  (prefix st = [] \/ is_prefix_longer (prefix st) = true) ->
+  send_char_brk c st = send_char c st /\ flush_brk st = flush st.
+Proof. exact break_equiv_activation. Qed.
+Print Assumptions C03_shift_break_equiv_activation.
+
+(* ... and that hypothesis is needed: with "ESC \t" pending (a complete key, which
+   no schedule leaves pending) a new ESC is emitted at once by /repo's loop and
+   kept waiting by the loop with a break. *)
+Theorem C03_shift_break_needs_reachable_state :
+  send_char_brk 27 (set_prefix [27; 9] init) <> send_char 27 (set_prefix [27; 9] init).
+Proof. exact shift_break_needs_reach. Qed.
+Print Assumptions C03_shift_break_needs_reachable_state.
 
 (* What the loop without a break does in general (any table, any state, whatever
    was found before): longest match first, repeatedly, with a decreasing length
@@ -336,6 +367,102 @@ Theorem C03_reader_closed_is_absorbing : forall calls st,
   rclosed st = true -> reader_run calls st = (st, [], []).
 Proof. exact reader_run_closed. Qed.
 Print Assumptions C03_reader_closed_is_absorbing.
+
+(* ---------------------------------------------------------------------- *)
+(* Round 6: the incremental UTF-8 decoder against a declarative specification
+   (Model/C03_Utf8Spec.v: [encode1] = the UTF-8 encoding of a scalar value,
+   [Utf8Dec bs text pend] = greedy decoding: a well-formed sequence where one
+   starts, keep what can still be completed, escape any other byte to U+DC00+b;
+   plus CPython's truncated-surrogate clause). *)
+
+(* The decoder returns the declarative decoding, for EVERY byte string ... *)
+Theorem C03_utf8_decoder_meets_spec : forall bs,
+  forallb is_byte bs = true -> Utf8Dec bs (dout (dec bs)) (dpend (dec bs)).
+Proof. exact dec_complete. Qed.
+Print Assumptions C03_utf8_decoder_meets_spec.
+
+(* ... and the specification determines the result (it is functional and the
+   decoder computes it). *)
+Theorem C03_utf8_spec_determines_decoder : forall bs t p,
+  Utf8Dec bs t p -> forallb is_byte bs = true -> dec bs = mkd t p false.
+Proof. exact dec_sound. Qed.
+Print Assumptions C03_utf8_spec_determines_decoder.
+
+(* ... for every way of cutting the byte stream into reads (undecoded tail
+   prepended to the next read, as PosixStdinReader's decoder does). *)
+Theorem C03_utf8_spec_any_chunking : forall reads,
+  forallb is_byte (concat reads) = true ->
+  Utf8Dec (concat reads) (fst (dec_reads [] reads)) (snd (dec_reads [] reads)).
+Proof. exact utf8_any_chunking. Qed.
+Print Assumptions C03_utf8_spec_any_chunking.
+
+(* Every text of Unicode scalar values, UTF-8 encoded and cut into reads in any
+   way (also inside multi-byte characters), is decoded to exactly that text with
+   nothing left over. *)
+Theorem C03_utf8_text_any_chunking : forall t reads,
+  forallb scalar t = true -> concat reads = encode t -> dec_reads [] reads = (t, []).
+Proof. exact utf8_text_any_chunking. Qed.
+Print Assumptions C03_utf8_text_any_chunking.
+
+(* Byte-level losslessness: the text, re-encoded with the escapes U+DC80..DCFF
+   turned back into their bytes, followed by the undecoded tail, is the byte
+   string that was read - every byte is carried by exactly one character or is
+   still pending, in order. *)
+Theorem C03_utf8_bytes_lossless : forall bs,
+  forallb is_byte bs = true -> encode_se (dout (dec bs)) ++ dpend (dec bs) = bs.
+Proof. exact utf8_bytes_lossless. Qed.
+Print Assumptions C03_utf8_bytes_lossless.
+
+(* The truncated-surrogate clause of the specification is a real deviation of
+   CPython from Unicode table 3-7 (kept although it cannot be completed). *)
+Theorem C03_utf8_truncated_surrogate_kept :
+  dec [237; 160] = mkd [] [237; 160] false /\
+  dec [237; 160; 128] = mkd [esc 237; esc 160; esc 128] [] false /\
+  ~ (exists cp ext, scalar cp = true /\ [237; 160] ++ ext = encode1 cp).
+Proof. exact utf8_truncated_surrogate_kept. Qed.
+Print Assumptions C03_utf8_truncated_surrogate_kept.
+
+(* End of file with an incomplete sequence pending: read() never finalises the
+   decoder.  Over any call sequence, text (re-encoded) ++ undecoded tail = bytes
+   taken; the tail is empty or 1-3 bytes that could still have been completed;
+   once the reader is closed no later call hands it out.  The property text
+   speaks about characters; an incomplete sequence is not one - recorded as an
+   observation (design.d/C03.md), not as a violation. *)
+Theorem C03_reader_eof_tail_undelivered : forall calls later,
+  let x := reader_run calls rinit in
+  forallb is_byte (snd x) = true ->
+  encode_se (snd (fst x)) ++ rpend (fst (fst x)) = snd x /\
+  (rpend (fst (fst x)) = [] \/ (Incomplete (rpend (fst (fst x))) /\ (1 <= length (rpend (fst (fst x))) <= 3)%nat)) /\
+  (rclosed (fst (fst x)) = true -> reader_run later (fst (fst x)) = (fst (fst x), [], [])).
+Proof. exact reader_tail_undelivered. Qed.
+Print Assumptions C03_reader_eof_tail_undelivered.
+
+Theorem C03_reader_eof_witness :
+  reader_run [(SelReady, RdData [97; 195]); (SelReady, RdData []); (SelReady, RdData [169])] rinit
+  = (mkr true [195], [97], [97; 195]).
+Proof. exact reader_eof_witness. Qed.
+Print Assumptions C03_reader_eof_witness.
+
+(* PosixStdinReader(errors=...): with "surrogateescape" (the default, and what
+   Vt100Input uses) the parametrised decoder is the decoder above; on well-formed
+   UTF-8 the handler makes no difference; on malformed input they differ. *)
+Theorem C03_errors_surrogateescape_is_dec : forall old bs,
+  dec_e ESurrogate old bs = of_dres (dec (old ++ bs)).
+Proof. exact dec_e_surrogate. Qed.
+Print Assumptions C03_errors_surrogateescape_is_dec.
+
+Theorem C03_errors_irrelevant_on_wellformed : forall m t,
+  forallb scalar t = true -> dec_e m [] (encode t) = mke t [] false false.
+Proof. exact dec_e_clean. Qed.
+Print Assumptions C03_errors_irrelevant_on_wellformed.
+
+Theorem C03_errors_modes_differ :
+  dec_e ESurrogate [] [195; 40] = mke [56515; 40] [] false false /\
+  dec_e EIgnore [] [195; 40] = mke [40] [] false false /\
+  dec_e EReplace [] [195; 40] = mke [65533; 40] [] false false /\
+  dec_e EStrict [] [195; 40] = mke [] [] true false.
+Proof. exact dec_e_modes_differ. Qed.
+Print Assumptions C03_errors_modes_differ.
 
 (* Non-vacuity: the table has multi-key entries without BracketedPaste. *)
 Example C03_table_has_tuples :
